@@ -108,6 +108,39 @@ func init() {
 			in.allocLimit = in.concInt(a[0].(*Term), "alloc_limit")
 			return nil
 		},
+		"verif_havoc": func(in *Interp, fr *frame, a []Value) Value {
+			// every scalar reachable in *p (through structs and arrays) gets an arbitrary value
+			ifc, _ := a[0].(Iface)
+			ptr, ok := ifc.v.(*Value)
+			if !ok || ptr == nil {
+				in.unsupported("verif_havoc needs a non-nil pointer")
+			}
+			var walk func(v Value) Value
+			walk = func(v Value) Value {
+				switch x := v.(type) {
+				case *Term:
+					if x.w == WBool {
+						return in.nondet("bool", WBool)
+					}
+					return in.nondet("havoc", x.w)
+				case Struct:
+					out := make(Struct, len(x))
+					for i := range x {
+						out[i] = walk(x[i])
+					}
+					return out
+				case Array:
+					out := make(Array, len(x))
+					for i := range x {
+						out[i] = walk(x[i])
+					}
+					return out
+				}
+				return v
+			}
+			*ptr = walk(*ptr)
+			return nil
+		},
 		"verif_taint_free": func(in *Interp, fr *frame, a []Value) Value {
 			// true iff no term in data mentions a variable occurring in secret (syntactic non-interference)
 			secretVars := map[*Term]bool{}
